@@ -47,6 +47,9 @@ pub struct EncCase {
     pub partition: Vec<usize>, // sizes of write() calls (cycled)
     pub sink: Vec<usize>,      // short-write schedule
     pub interlaced_flag: bool, // Info.interlaced = true through with_info (D12)
+    /// stream paths only, empty = not used: the image is written ROW BY ROW and `StreamWriter::set_filter` is called before row r with
+    /// filter `row_filters[r % len]` (a per-row public setting; the previous-row state has to survive every switch)
+    pub row_filters: Vec<u8>,
 }
 
 fn color_of(c: u8) -> png::ColorType {
@@ -87,6 +90,7 @@ impl EncCase {
             .set("partition", J::Arr(self.partition.iter().map(|&x| J::i(x as u64)).collect()))
             .set("sink", J::Arr(self.sink.iter().map(|&x| J::i(x as u64)).collect()))
             .set("interlaced_flag", J::Bool(self.interlaced_flag))
+            .set("row_filters", J::Arr(self.row_filters.iter().map(|&x| J::i(x)).collect()))
     }
     fn from_json(j: &J) -> Option<EncCase> {
         let g = |k: &str| j.get(k).and_then(|v| v.as_i64());
@@ -96,6 +100,7 @@ impl EncCase {
             pixels: unhex(j.get("pixels")?.as_str()?)?, filter: g("filter")? as u8, compression: g("compression")? as u8,
             path: g("path")? as u8, stream_buf: g("stream_buf")? as usize, partition: arr("partition"), sink: arr("sink"),
             interlaced_flag: matches!(j.get("interlaced_flag"), Some(J::Bool(true))),
+            row_filters: arr("row_filters").into_iter().map(|x| x as u8).collect(),
         })
     }
     fn summary(&self) -> J {
@@ -107,6 +112,14 @@ impl EncCase {
 
 /// the pixel bytes through `StreamWriter::write` in the pieces of `c.partition`
 fn feed<W: Write>(sw: &mut png::StreamWriter<W>, c: &EncCase) -> Result<(), String> {
+    if !c.row_filters.is_empty() {
+        let rb = (c.w as usize * crate::refpng::samples(c.color) * c.depth as usize + 7) / 8;
+        for (r, row) in c.pixels.chunks(rb.max(1)).enumerate() {
+            sw.set_filter(filter_of(c.row_filters[r % c.row_filters.len()]));
+            sw.write_all(row).map_err(|e| format!("stream write_all (row {}): {}", r, e))?;
+        }
+        return Ok(());
+    }
     let mut pos = 0;
     let mut k = 0;
     let mut stall = 0;
@@ -522,6 +535,7 @@ fn gen(rng: &mut Rng, big: bool) -> EncCase {
         stream_buf: *rng.pick(&[0usize, 1, 2, 7, 64, 4096]),
         partition, sink,
         interlaced_flag: false,
+        row_filters: vec![],
     }
 }
 
@@ -554,6 +568,21 @@ pub fn run(ctx: &mut Ctx) {
         }
         cases.push(c);
     }
+    // the filter switched between rows inside one stream session (NoFilter rows followed by a row that looks at the previous row,
+    // and every other transition): what the decoder reconstructs must still be what was written
+    for k in 0..ctx.n(160, 1600) {
+        let mut r = rng.fork(970_000 + k as u64);
+        let mut c = gen(&mut r, false);
+        c.path = 1 + (k % 2) as u8;
+        c.sink = vec![];
+        c.row_filters = match k % 4 {
+            0 => vec![0, 2],
+            1 => vec![0, 0, *r.pick(&[2u8, 3, 4, 5])],
+            2 => (0..r.usize(2, 5)).map(|_| r.below(6) as u8).collect(),
+            _ => vec![*r.pick(&[1u8, 5]), 0, 4, 0, 3],
+        };
+        cases.push(c);
+    }
     // tiny images over a small alphabet, exhaustively, with the adaptive filter: rows on which several candidate filters
     // score exactly the same are common here (the heuristic's tie-breaking decides which bytes go with which type byte)
     {
@@ -565,7 +594,7 @@ pub fn run(ctx: &mut Ctx) {
             for code in 0..total {
                 let mut x = code;
                 let pixels: Vec<u8> = (0..n).map(|_| { let v = alphabet[x % a]; x /= a; v }).collect();
-                cases.push(EncCase { color: 0, depth: 8, w, h, pixels, filter: 5, compression: if code % 2 == 0 { 1 } else { 0 }, path: (code % 3 == 0) as u8, stream_buf: 4096, partition: vec![], sink: vec![], interlaced_flag: false });
+                cases.push(EncCase { color: 0, depth: 8, w, h, pixels, filter: 5, compression: if code % 2 == 0 { 1 } else { 0 }, path: (code % 3 == 0) as u8, stream_buf: 4096, partition: vec![], sink: vec![], interlaced_flag: false, row_filters: vec![] });
             }
         }
         // the same idea for RGB8 (bpp 3) and Gray16 (bpp 2): two-row images whose second row repeats / offsets the first
@@ -577,7 +606,7 @@ pub fn run(ctx: &mut Ctx) {
             let rb = w as usize * bpp;
             let vals: [u8; 4] = [0, 1, 2, 255];
             let pixels: Vec<u8> = (0..rb * h as usize).map(|_| *r.pick(&vals)).collect();
-            cases.push(EncCase { color, depth, w, h, pixels, filter: 5, compression: 1, path: (k % 2) as u8, stream_buf: 64, partition: vec![], sink: vec![], interlaced_flag: false });
+            cases.push(EncCase { color, depth, w, h, pixels, filter: 5, compression: 1, path: (k % 2) as u8, stream_buf: 64, partition: vec![], sink: vec![], interlaced_flag: false, row_filters: vec![] });
         }
     }
     // highly compressible images whose raw size lies just above a power-of-two size of the decoder's inflate buffer (see C01)
@@ -589,7 +618,7 @@ pub fn run(ctx: &mut Ctx) {
         for b in img.pixels[keep * rb..].iter_mut() {
             *b = 0;
         }
-        cases.push(EncCase { color, depth, w, h, pixels: img.pixels, filter: *r.pick(&[0u8, 0, 5, 2]), compression: *r.pick(&[3u8, 8, 11, 1, 13, 16]), path: (k % 2) as u8, stream_buf: *r.pick(&[0usize, 4096]), partition: vec![], sink: vec![], interlaced_flag: false });
+        cases.push(EncCase { color, depth, w, h, pixels: img.pixels, filter: *r.pick(&[0u8, 0, 5, 2]), compression: *r.pick(&[3u8, 8, 11, 1, 13, 16]), path: (k % 2) as u8, stream_buf: *r.pick(&[0usize, 4096]), partition: vec![], sink: vec![], interlaced_flag: false, row_filters: vec![] });
     }
     let files: Vec<Result<Vec<u8>, String>> = cases.iter().map(encode).collect();
     let lines: Vec<String> = files.iter().map(|f| match f { Ok(f) => format!("c01 decode {}", hex(f)), Err(_) => "c01 skip".to_string() }).collect();
